@@ -1,0 +1,23 @@
+//go:build verif
+
+package route
+
+// Verification hooks (build tag verif). Add-only; see /verif/MANIFEST.json.
+
+// VerifLen returns the number of compiled patterns the cache currently holds.
+func (c *GlobCache) VerifLen() int {
+	n := 0
+	c.m.Range(func(_, _ interface{}) bool { n++; return true })
+	return n
+}
+
+// VerifSetRandIntn replaces the random source of the rnd picker and returns
+// a function which restores the previous one.
+func VerifSetRandIntn(f func(n int) int) (restore func()) {
+	old := randIntn
+	randIntn = f
+	return func() { randIntn = old }
+}
+
+// VerifRingLen returns the size of the weighted round-robin ring of a route.
+func (r *Route) VerifRingLen() int { return len(r.wTargets) }
